@@ -9,7 +9,7 @@
    Safety theorems hold for both (forall fx). Liveness under lag holds for tick_fixed and is REFUTED for tick
    (finding F3: C15_starvation_refuted_current). *)
 From Coq Require Import NArith ZArith List Bool.
-From Verif Require Import Model.Oracle Model.C15Cases Proofs.OracleProofs.
+From Verif Require Import Model.Oracle Model.C15Cases Model.C15Reorg Proofs.OracleProofs Proofs.OracleReorgProofs.
 Import ListNotations.
 Open Scope N_scope.
 
@@ -128,6 +128,35 @@ Theorem C15_caught_up_two_ticks : forall hist, sorted_hist hist -> forall st ia 
   fst st2 = 0 /\ In g (snd st2).
 Proof. exact caught_up_two_ticks. Qed.
 
+(* ---- safety under L1 reorgs: the L1 info tree history may change between any two ticks (the chain is reorganised
+   and the syncer follows the new fork); every tick runs against the history that is canonical when it runs ---- *)
+
+(* every root injected at tick t is the most recent root, at or below the most recently sampled block F, of the
+   history that is canonical AT TICK t - never a root of a fork that has been reorganised away *)
+Theorem C15_injected_is_current_latest_run_reorg : forall fx sched l2 t o g,
+  Forall (fun hi => sorted_hist (fst hi)) sched ->
+  nth_error (run_r (tick_with fx) (0, l2) sched) t = Some (o, AInject g) ->
+  exists F h_t i_t s h_s i_s,
+    (s <= t)%nat /\ nth_error sched s = Some (h_s, i_s) /\ i_l1err i_s = false /\ i_F i_s = F /\
+    nth_error (targets_before_r (tick_with fx) (0, l2) sched) s = Some 0 /\
+    (forall u, (s < u <= t)%nat -> nth_error (targets_before_r (tick_with fx) (0, l2) sched) u = Some F) /\
+    F <> 0 /\ nth_error sched t = Some (h_t, i_t) /\ F <= i_lpb i_t /\
+    ref_latest h_t F = Some g.
+Proof. exact injected_is_current_latest_run_reorg. Qed.
+
+Theorem C15_no_duplicate_injection_run_reorg : forall fx sched st,
+  NoDup (injections (run_r (tick_with fx) st sched)) /\
+  forall g, In g (injections (run_r (tick_with fx) st sched)) -> ~ In g (snd st).
+Proof. exact no_duplicate_injection_run_reorg. Qed.
+
+(* the runs over a changing history contain the runs over a fixed one *)
+Theorem C15_reorg_runs_generalise : forall tk hist sched st,
+  run_r tk st (map (fun i => (hist, i)) sched) = run tk hist st sched.
+Proof. exact run_r_const. Qed.
+
+Theorem C15_sel_all : forall pool, sel pool (seq 0 (length pool)) = pool.
+Proof. exact sel_all. Qed.
+
 (* ---- non-vacuity ---- *)
 
 Definition ex_hist : list row := [(2, 102); (4, 104); (4, 105); (9, 109)].
@@ -183,6 +212,25 @@ Example C15_ex_caught_up :
   caught_walk h [] 0 false (model_obs tick_fixed (-3)%Z h (0, []) [ex_tin 5 20; ex_tin 9 20; ex_tin 9 20]) = true.
 Proof. repeat split; vm_compute; reflexivity. Qed.
 
+(* a reorg between two ticks: block 9 (root 109) is reorganised away and the new fork has root 209 in block 10. The
+   repaired model injects 109 before the reorg (latest finality sampled block 9) and 209 after it; the executable
+   safety clause accepts that and rejects an implementation that, after the reorg, injects the root of the dead fork *)
+Example C15_ex_reorg :
+  let pool := [(2, 102); (9, 109); (10, 209)] in
+  let h0 := [0; 1]%nat in let h1 := [0; 2]%nat in
+  let sched := [(sel pool h0, ex_tin 5 20); (sel pool h1, ex_tin 12 20)] in
+  Forall (fun hi => sorted_hist (fst hi)) sched /\
+  run_r tick_fixed (0, []) sched = [(0, AInject 102); (0, AInject 209)] /\
+  safe_walk_r (-3)%Z pool [] None (model_obs_r tick_fixed (-3)%Z (0, []) sched) [h0; h1] = true /\
+  safe_walk_r (-3)%Z pool [] None
+    [(ex_tin 5 20, {| o_tags := [(-3)%Z]; o_inj := [102]; o_att := []; o_err := 0; o_target := 0 |});
+     (ex_tin 12 20, {| o_tags := [(-3)%Z]; o_inj := [109]; o_att := []; o_err := 0; o_target := 0 |})] [h0; h1] = false.
+Proof.
+  cbv zeta. split; [|repeat split; vm_compute; reflexivity].
+  apply Forall_cons; [apply sorted_histb_ok; vm_compute; reflexivity|].
+  apply Forall_cons; [apply sorted_histb_ok; vm_compute; reflexivity|]. apply Forall_nil.
+Qed.
+
 (* a failing dependency: hypotheses of C15_errors_inject_nothing met, and the tick indeed reports the failure *)
 Example C15_ex_error :
   let d := mkdeps ex_hist [] {| i_F := 5; i_l1err := false; i_lpb := 20; i_infoerr := true; i_l2add := [];
@@ -204,3 +252,7 @@ Print Assumptions C15_lag_schedule_fair.
 Print Assumptions C15_progress_under_lag.
 Print Assumptions C15_progress_under_lag_fair.
 Print Assumptions C15_caught_up_two_ticks.
+Print Assumptions C15_injected_is_current_latest_run_reorg.
+Print Assumptions C15_no_duplicate_injection_run_reorg.
+Print Assumptions C15_reorg_runs_generalise.
+Print Assumptions C15_sel_all.
